@@ -12,6 +12,7 @@ import ParryModel.C05.Theorems11
 import ParryModel.C05.Theorems12
 import ParryModel.C05.Theorems13
 import ParryModel.C05.Theorems14
+import ParryModel.C05.Theorems15
 /-!
 # C05 property theorems (umbrella file)
 
@@ -32,5 +33,6 @@ import ParryModel.C05.Theorems14
 * `Theorems12.lean` — fu5: tetrahedron face regions (`check_face` sound / optimal / never for members / symmetric in the determinants).
 * `Theorems13.lean` — fu5: the whole tetrahedron cascade: every vertex / edge / face answer is the nearest member; no assert; `OnSolid` only for `solid = true`.
 * `Theorems14.lean` — fu5: tetrahedron members are fixed; interior points of a non-degenerate tetrahedron get `(true, pt)` / `OnSolid` (`solid = true`) or the documented `unimplemented!()` (`solid = false`); flag `true` only with `OnSolid`.
+* `Theorems15.lean` — fu5: the tetrahedron's default methods (`Tet.lean`): no panic with `solid = true`, `contains` on interior points, distance never negative, max-dist, posed projection nearest in the posed tetrahedron.
 `./mkaudit C05` collects the public `theorem`s of every `Theorems*.lean`.
 -/
